@@ -235,12 +235,13 @@ pub fn expected_merged(srcs: &[&[Msg]], with_sep: bool) -> Vec<u8> {
 /// a set of sources whose instants collide often: all text logs share a coarse time base
 pub fn source_set(max_sources: usize, max_msgs: usize, allow_shipped: bool, tz_off: i32) -> BoxedStrategy<Vec<Source>> {
     let base = 1_500_000_000i64;
-    let text = (0usize..TMPLS.len(), any_codec_or_plain(), prop::bool::weighted(0.8)).prop_flat_map(move |(tmpl, codec, ordered)| {
+    let text = (0usize..TMPLS.len(), any_codec_or_plain(), prop::bool::weighted(0.8), prop::bool::weighted(0.3)).prop_flat_map(move |(tmpl, codec, ordered, big)| {
         let p = TextParams {
             min_msgs: 0,
             max_msgs,
-            steer_bs: 64,
-            max_mult: 2,
+            // 30% of the text sources carry lines and messages of several KiB (print-buffer sized and larger)
+            steer_bs: if big { 1400 } else { 64 },
+            max_mult: if big { 3 } else { 2 },
             allow_header: true,
             tmpls: vec![tmpl],
             max_cont: 2,
